@@ -62,8 +62,38 @@ fn current() -> Option<Arc<dyn Sched>> {
         .flatten()
 }
 
+thread_local! {
+    static NO_SWITCH: std::cell::Cell<u32> = const { std::cell::Cell::new(0) };
+}
+
+/// While the returned guard lives, instrumented points of the calling thread are not
+/// reported to the scheduler. Used around closures that run under a shard WRITE lock,
+/// where parking the thread would make other threads block on a real lock.
+pub(crate) struct NoSwitch;
+
+impl NoSwitch {
+    pub(crate) fn new() -> Self {
+        let _ = NO_SWITCH.try_with(|c| c.set(c.get() + 1));
+        NoSwitch
+    }
+}
+
+impl Drop for NoSwitch {
+    fn drop(&mut self) {
+        let _ = NO_SWITCH.try_with(|c| c.set(c.get().saturating_sub(1)));
+    }
+}
+
+#[inline]
+fn switching_allowed() -> bool {
+    NO_SWITCH.try_with(|c| c.get() == 0).unwrap_or(false)
+}
+
 #[inline]
 pub(crate) fn sp(label: &'static str) {
+    if !switching_allowed() {
+        return;
+    }
     if let Some(s) = current() {
         s.event(Event::Switch(label));
     }
@@ -466,6 +496,8 @@ where
         Q: std::hash::Hash + Eq + ?Sized,
     {
         self.gate("map.remove_if", key);
+        // the predicate runs under the shard's write lock
+        let _quiet = NoSwitch::new();
         self.0.remove_if(key, f)
     }
 
